@@ -167,6 +167,23 @@ fn main() -> u64 {
         _ => panic!("unknown script version {v}"),
     };
     // with a context type the script also reads a context field (always 0)
+    // version 2 has a LARGE constant section: 36 constants of a 128-byte record type (4608 bytes, more than a page
+    // of constant storage) declared between the tracked ones; helper() reads a field of the first, of a middle and
+    // of the last of them (their sum, 3 * 35 / 2 .. is subtracted again, so the specified result does not change)
+    let s = if v == 2 {
+        let fields: Vec<String> = (0..16).map(|j| format!("a{j}: u64")).collect();
+        let mut big = format!("record Wide {{ {} }}\n", fields.join(", "));
+        for i in 0..36u64 {
+            let vals: Vec<String> = (0..16u64).map(|j| format!("a{j}: {}", i * 100 + j)).collect();
+            big.push_str(&format!("const C{i}: Wide = Wide {{ {} }};\n", vals.join(", ")));
+        }
+        // C0.a0 = 0, C17.a9 = 1709, C35.a15 = 3515
+        s.replace("const K2: Tk = mk(1, 20);", &format!("{big}const K2: Tk = mk(1, 20);"))
+            .replace("tag(K) + tag(K2)", "tag(K) + tag(K2) + (C0.a0 + C17.a9 + C35.a15 - 5224)")
+    } else {
+        s.to_string()
+    };
+    let s = s.as_str();
     // after the late constant was added the script reads it too
     let s = if late { s.replace("tag(RC) * 100000000", "(tag(RC) + tag(LC)) * 100000000") } else { s.to_string() };
     if ctx { s.replace("fn main() -> u64 {", "fn main() -> u64 {\n    bias +") } else { s }
